@@ -1,6 +1,7 @@
 """C03 - crowding distance, environmental selection (nondominated_truncate) and binary tournament:
 correspondence with Model/Selection.v (binary64 instance, bit for bit) and the direct oracle."""
 import math
+from fractions import Fraction
 
 from harness.core import fl, zl, nl, ll, pl, optl, FLOAT_AXIOMS
 
@@ -22,12 +23,16 @@ TRUSTED = [
     "C03_crowding_bounds rests on the named arithmetic premises (term_bounds, add_bounds, bound_start); they are proved for exact rationals "
     "(C03_crowding_bounds_Q) and assumed, not proved, for binary64 (monotone rounding); the direct oracle checks the bounds on every generated front",
     "C03_truncate_spec's design clause has the premise that set()'s element equality is symmetric on the population; it holds for equal-length vectors when |a-b| = |b-a| (binary64: assumed)",
-    "design equality in the run instance: same recorded hash(tuple(vector)) and (same object or Individual.__eq__), i.e. what set() applies; hashes are recorded per individual",
+    "design equality in the run instance: same hash(tuple(vector)) of the individual's CURRENT vector (computed by the harness at the moment of the call; "
+    "that Individual.__hash__ is this function of the vector is C20's subject) and (same object or Individual.__eq__), i.e. what set() applies; an "
+    "implementation hash that does not follow the vector (cached, keyed on the object) shows up as a different set of survivors",
     "compared per case: crowding distance of every member (by id, bit for bit), the set of surviving ids, the winner id; the order in which crowding_distance "
     "leaves the list and the order of the returned survivors are not part of the property and are not compared",
 ]
 ASSUMPTIONS = [
-    "cost values are finite non-NaN binary64 floats whose differences do not overflow; all members of a front have the same number of objectives",
+    "cost values are finite non-NaN binary64 floats of ANY magnitude (subnormal gaps, ranges below sys.float_info.epsilon, 1e300 are generated) whose "
+    "differences do not overflow (populations in which max-min of an objective overflows are generated, skipped and counted); all members of a front "
+    "have the same number of objectives",
     "populations are ranked: features['front_number'] and ['crowding_distance'] are set (the harness runs the real fast_nondominated_sorting first)",
     "individual ids are distinct; a population list does not contain the same object twice",
 ]
@@ -38,12 +43,16 @@ LEVEL_TEXT = ("Machine-checked Coq theorems over an executable model of crowding
               "premises (proved for Q); truncation returns min(k, #distinct) individuals, each design once, rank-elitist, crowding-ordered in the cut "
               "front, for every set-iteration order, and never keeps an individual dominated by a discarded one when front numbers satisfy the rank "
               "equation; the tournament returns one of the two sampled members, never the worse-ranked nor (equal rank) the dominated one, for every "
-              "sample and coin. The binary64 instance of the model is run in Coq on every generated case and compared with the real code exactly.")
+              "sample and coin. The binary64 instance of the model is run in Coq on every generated case and compared with the real code exactly: populations "
+              "with objective values on scales across the whole binary64 range (ranges on either side of 0, 5e-324, 2.2e-308, epsilon, 1e-12 ... 1e300; "
+              "costs_signed set directly and produced by calc_signed_costs with raised precision), and multi-generation histories on long-lived "
+              "individuals whose vectors, costs and ranks change between the calls (in place, by assignment, sync, clamping onto the bounds).")
 LEVEL_NOTE = ("Trusted: Coq kernel + vm_compute; the hand-written model and the Python harness; stable-sort uniqueness; the arithmetic premises of "
               "C03_crowding_bounds are proved for Q and only assumed for binary64; symmetry of Individual equality is a premise of the each-design-once clause. "
               "Front numbers are inputs (their correctness is C02); correspondence is sampled, theorems are unbounded. The model fixes the tie-break among "
               "individuals with equal (front, crowding) keys at the cut (set order + stable sort): a change of that tie-break alone is reported as a "
-              "correspondence break without a failing input.")
+              "correspondence break without a failing input. Individual.__hash__ is taken to be hash(tuple(vector)) of the current vector (C20); "
+              "populations in which a difference of two objective values overflows are outside the assumptions (skipped and counted).")
 
 HEADER = ("From Artap Require Import Run.C03Run.\nFrom Coq Require Import List ZArith Floats.\nImport ListNotations.\n"
           "Open Scope float_scope.\n")
@@ -51,6 +60,26 @@ HEADER = ("From Artap Require Import Run.C03Run.\nFrom Coq Require Import List Z
 SMALL = [0.0, 1.0, 2.0, 3.0]
 GRID = [0.0, 1.0, 2.0, 3.0, 0.5, 1.5, 2.5, -1.0, 0.1, 0.2, 0.3, 0.30000000000000004, 0.7, -0.0, 1e-7, 1234.5678, -7.25]
 VGRID = [0.0, 0.5, 1.0, -1.0, 2.5, 0.1]
+
+# value scales across the whole binary64 range: every numeric threshold a guard on the range of an objective could be
+# confused with (0.0, the smallest subnormal, the smallest normal, sys.float_info.epsilon, the usual tolerances, the
+# default rounding precision 1e-7 of calc_signed_costs, ...) gets ranges exactly on it and just on either side of it
+EPS = 2.220446049250313e-16            # sys.float_info.epsilon (operators.EPSILON)
+TINY = 2.2250738585072014e-308         # smallest normal
+FMAX = 1.7976931348623157e308
+THRESH = [0.0, 5e-324, 1e-320, TINY, 1e-300, 1e-200, 1e-100, 1e-30, 1e-20, 1e-17, 1e-16, EPS, 1e-15, 1e-14, 1e-12, 1e-10,
+          1e-9, 1e-8, 1e-7, 1e-6, 1e-5, 1e-4, 1e-3, 1e-2, 1.0, 1e3, 1e12, 1e100, 1e300]
+RANGE_BUCKETS = [(0.0, "0"), (TINY, "subnormal"), (1e-100, "[2.2e-308,1e-100)"), (EPS, "[1e-100,eps)"), (1e-9, "[eps,1e-9)"),
+                 (1e-3, "[1e-9,1e-3)"), (1e3, "[1e-3,1e3)"), (1e100, "[1e3,1e100)"), (math.inf, "[1e100,inf)")]
+
+
+def range_bucket(r):
+    if r == 0.0:
+        return "0"
+    for hi, name in RANGE_BUCKETS[1:]:
+        if r < hi:
+            return name
+    return "inf (difference overflows)"
 
 
 # boundary populations (cost vectors, indices of members whose design is duplicated at the end)
@@ -64,6 +93,15 @@ CORPUS = [
     ([[0.0, 4.0], [1.0, 3.0], [2.0, 2.0], [3.0, 1.0], [4.0, 0.0], [1.0, 4.0], [2.0, 3.0], [3.0, 2.0], [5.0, 5.0]], [2]),  # three fronts, cut inside
     ([[1e-7, 3.0], [2e-7, 2.0], [3e-7, 1.0], [1.5e-7, 2.5]], []),                        # tiny range
     ([[1.0, 2.0]], []), ([[1.0, 2.0], [2.0, 1.0]], [0, 1]),                              # fronts of one and two
+    # one objective in a small unit (red-team change 1: `max_distance > EPSILON`): tie-free, range 1e-16 / exactly epsilon /
+    # one ulp above epsilon / subnormal / 4 ulps of 1.0 / of 1e300
+    ([[0.0, 10.0], [1e-17, 9.0], [2e-17, 8.9], [9e-17, 8.8], [1e-16, 0.0]], []),
+    ([[0.0, 10.0], [2.0 ** -54, 9.0], [2.0 ** -53, 8.9], [3 * 2.0 ** -54, 8.8], [2.0 ** -52, 0.0]], []),
+    ([[0.0, 10.0], [2.0 ** -54, 9.0], [2.0 ** -53, 8.9], [3 * 2.0 ** -54, 8.8], [2.0 ** -52 + 2.0 ** -104, 0.0]], []),
+    ([[0.0, 4.0], [5e-324, 3.0], [1e-323, 2.5], [2e-323, 0.0]], []),
+    ([[1.0, 4.0], [1.0000000000000002, 3.0], [1.0000000000000004, 2.5], [1.0000000000000009, 0.0]], []),
+    ([[1e300, 4.0], [1.0000000000000002e300, 3.0], [1.0000000000000005e300, 2.5], [1.0000000000000007e300, 0.0], [-7e307, 5.0]], []),
+    ([[1e-300, 4.0, 0.0], [2e-300, 3.0, 5e-17], [3e-300, 2.5, 1e-16], [5e-300, 0.0, 2.5e-16], [4e-300, 1.0, 2e-16]], [1]),
 ]
 
 
@@ -88,10 +126,62 @@ def ext(v):
 
 
 # ---------------------------------------------------------------- generators
+def scale_column(rng, n):
+    """the values of ONE objective for n members, on a scale anywhere in binary64."""
+    kind = rng.choice(["threshold", "threshold", "threshold", "adjacent", "multiples", "multiples", "offset", "huge", "ordinary", "ordinary"])
+    if kind == "threshold":         # the range max-min is a threshold value T or a neighbour of it; members at fractions of it
+        T = rng.choice(THRESH)
+        R = rng.choice([T, T, math.nextafter(T, 0.0), math.nextafter(T, math.inf), T / 2, T * 2, T * 1.5])
+        fr = sorted(rng.sample(range(1, 64), n - 2)) if 0 < n - 2 <= 63 else [rng.randrange(1, 64) for _ in range(max(n - 2, 0))]
+        vals = ([0.0] + [R * k / 64.0 for k in fr] + [R])[:max(n, 1)] if n >= 2 else [R]
+        anchor = rng.choice(["min0", "min0", "max0", "mid"])
+        if anchor == "max0":        # max = 0, min = -R : the computed range is still exactly R
+            vals = [v - R for v in vals]
+        elif anchor == "mid":
+            vals = [v - R / 2 for v in vals]
+    elif kind == "adjacent":        # neighbouring floats: gaps of 1..5 ulps, range of a few ulps
+        base = rng.choice([0.0, 1.0, -1.0, 0.1, 1e300, -1e300, 1e-300, TINY, 1e-17, EPS, 1234.5678, FMAX, -0.0, 1e-7])
+        to = -math.inf if base >= 1e308 else math.inf
+        v = base
+        vals = [v]
+        for _ in range(n - 1):
+            for _s in range(rng.choice([1, 1, 1, 2, 5])):
+                v = math.nextafter(v, to)
+            vals.append(v)
+    elif kind == "multiples":       # k * unit for a small physical unit (or a very large one)
+        u = rng.choice([1e-17, 1e-17, 1e-16, 3e-16, 1e-20, 1e-30, 1e-300, 1e-308, 5e-324, 1e-320, 1e-7, 1e-8, 1e150, 1e300])
+        ks = rng.sample(range(-2 * n, 4 * n + 4), n) if rng.random() < 0.8 else [rng.randrange(0, 3) for _ in range(n)]
+        vals = [k * u for k in ks]
+    elif kind == "offset":          # a large offset with a spread of a few ulps of it
+        b = rng.choice([1.0, 1e6, -1e6, 1e15, 1e300, 1e-300, 0.3])
+        u = math.ulp(b)
+        vals = [b + k * u for k in rng.sample(range(0, 8 * n + 8), n)]
+    elif kind == "huge":            # close to the largest float: differences may overflow (outside the stated assumptions)
+        u = rng.choice([1e300, 1e307, 8e307, FMAX])
+        vals = [rng.uniform(-1, 1) * u if rng.random() < 0.7 else rng.choice([u, -u, u / 2]) for _ in range(n)]
+    else:
+        vals = [rng.uniform(0, 5) for _ in range(n)]
+    return kind, vals
+
+
 def gen_costs(rng, n, m):
     """n cost vectors with m objectives, from templates rich in ties / zero ranges / tie-free fronts."""
     t = rng.choice(["grid", "grid", "small", "uniform", "antichain", "antichain", "antichain_u", "antichain_u",
-                    "chain", "allequal", "zerorange", "zerorange_u", "scaled"])
+                    "chain", "allequal", "zerorange", "zerorange_u", "scaled", "scales", "scales", "scales", "scales", "scales"])
+    if t == "scales":               # every objective on its own scale; the first two form an anti-chain (one front) in 70 %
+        cols = [scale_column(rng, n)[1] for _ in range(m)]
+        if rng.random() < 0.7:
+            cols[0].sort()
+            if m >= 2:
+                cols[1].sort(reverse=True)
+            for c in cols[2:]:
+                rng.shuffle(c)
+        else:
+            for c in cols:
+                rng.shuffle(c)
+        cs = [[cols[d][i] for d in range(m)] for i in range(n)]
+        rng.shuffle(cs)
+        return t, cs
     if t == "grid":
         cs = [[rng.choice(GRID) for _ in range(m)] for _ in range(n)]
     elif t == "small":
@@ -147,7 +237,18 @@ def gen_population(rng, Individual, nmax, SubInd=None):
     if cost_repr == "int" and not all(float(v).is_integer() and abs(v) < 2 ** 50 for c in cs for v in c):
         cost_repr = "float"
     collide = rng.random() < 0.2            # first coordinates -1.0, -2.0, ...: hash((-1.0,)+r) == hash((-2.0,)+r)
-    kinds = {"dup": 0, "dup_other_costs": 0, "near_equal": 0, "other_repr": 0, "hash_collision": int(collide and n >= 2)}
+    kinds = {"dup": 0, "dup_other_costs": 0, "near_equal": 0, "other_repr": 0, "hash_collision": int(collide and n >= 2),
+             "pipeline": 0, "pipeline_nonfinite": 0, "outside_assumptions": 0}
+    # costs_signed produced by Individual.calc_signed_costs from costs, signs and features['precision'] (raised by the user
+    # for objectives in small units; with the default 7 decimals tiny values collapse to ties / zero ranges)
+    pipeline = rng.random() < (0.5 if template == "scales" else 0.2)
+    precision = rng.choice([7, 12, 17, 20, 30, 30, 100, 300] if template == "scales" else [7, 7, 12, 30])
+    signs = [rng.choice([1, 1, -1]) for _ in range(m)]
+    # outside the stated assumptions (skip-and-count): a difference of two values of one objective overflows
+    for d in range(m):
+        col = [c[d] for c in cs]
+        if not all(math.isfinite(v) for v in col) or not math.isfinite(max(col) - min(col)):
+            kinds["outside_assumptions"] = 1
 
     def conv(v):
         return np.float64(v) if cost_repr == "numpy" else (int(v) if cost_repr == "int" else v)
@@ -180,6 +281,16 @@ def gen_population(rng, Individual, nmax, SubInd=None):
             first = -float(i + 1) if collide else float(i)
             ind = cls([first] + [rng.choice(VGRID) for _ in range(nv - 1)])
             ind.costs_signed = own_costs
+            if pipeline:
+                ind.costs = own_costs[:-1]
+                ind.features["precision"] = precision
+                ind.features["feasible"] = not own_costs[-1]      # as Job.evaluate sets it; the marker becomes `not feasible`
+                ind.calc_signed_costs(signs)
+                if all(math.isfinite(v) for v in ind.costs_signed[:-1]):
+                    kinds["pipeline"] += 1
+                else:                                    # np.round overflowed (value * 10**precision): not a C03 matter
+                    ind.costs_signed = own_costs
+                    kinds["pipeline_nonfinite"] += 1
         ind.costs = list(ind.costs_signed[:-1])
         ind.features["feasible"] = not ind.costs_signed[-1]
         ind.state = rng.choice(list(Individual.State))
@@ -223,14 +334,15 @@ def oracle_crowding(ctx, before, after, m):
     if tie_free:
         for i, c, cd in after:
             extreme = False
-            total = 0.0
+            total = Fraction(0)             # the formula in exact rationals: no guard, no rounding, any scale
             for d in range(m):
                 vals = sorted(x[d] for _, x in before)
                 if c[d] == vals[0] or c[d] == vals[-1]:
                     extreme = True
                     break
                 pos = vals.index(c[d])
-                total += (vals[pos + 1] - vals[pos - 1]) / (vals[-1] - vals[0])
+                total += (Fraction(vals[pos + 1]) - Fraction(vals[pos - 1])) / (Fraction(vals[-1]) - Fraction(vals[0]))
+            total = float(total)
             if extreme:
                 if cd != math.inf:
                     fail("extreme solution %d of a tie-free front has finite crowding distance %r" % (i, cd), "crowding_extreme_tiefree")
@@ -338,26 +450,44 @@ class RandomTape:
 
 
 def enc_ind(x, cid):
+    # c3hash: the hash of the individual's CURRENT vector (the model's Individual.__hash__ is hash(tuple(vector)), a function
+    # of the vector as it is now); the implementation's own hash(x) is what set() uses - a hash that does not follow the
+    # vector (cached at first use, keyed on the object) shows up as a different set of survivors
     return ("{| c3id := %s; c3vec := %s; c3hash := %s; c3cost := %s; c3mark := %s; c3front := %s; c3cd := %s |}"
-            % (nl(cid[id(x)]), ll(x.vector, fl), zl(hash(x)), ll(x.costs_signed[:-1], fl), zl(int(x.costs_signed[-1])),
+            % (nl(cid[id(x)]), ll(x.vector, fl), zl(hash(tuple(x.vector))), ll(x.costs_signed[:-1], fl), zl(int(x.costs_signed[-1])),
                nl(x.features["front_number"]), ext(x.features["crowding_distance"])))
 
 
 def run(ctx):
+    import numpy as np
     import artap.operators as ops
     from artap.individual import Individual
+    from artap.algorithm_swarm import IndividualSwarm
+    from artap.algorithm_NSGAII import IndividualNSGAII
     rng = ctx.rng
-    n_pops = ctx.pick(240, 5000)
+    n_pops = ctx.pick(260, 5000)
+    n_hist = ctx.pick(70, 1500)
     nmax = ctx.pick(12, 30)
     cases, expected, meta = [], [], []
-    stats = {"populations": 0, "crowding_calls": 0, "fronts_ge3": 0, "tie_free_fronts_ge3": 0, "fronts_with_ties": 0,
+    stats = {"populations": 0, "populations_skipped_difference_overflow": 0, "crowding_calls": 0, "fronts_ge3": 0,
+             "tie_free_fronts_ge3": 0, "fronts_with_ties": 0,
              "interior_finite_values": 0, "zero_range_objectives": 0, "crowding_calls_with_stale_distances": 0,
+             "objective_range_hist_fronts_ge3": {}, "tie_free_objectives_with_range_le_epsilon": 0,
+             "tie_free_objectives_with_subnormal_range": 0, "tie_free_fronts_with_an_objective_range_le_epsilon": 0,
+             "costs_signed_via_calc_signed_costs": 0, "calc_signed_costs_nonfinite_fallback": 0,
              "truncate_cases": 0, "truncate_with_duplicates": 0, "truncate_cut_inside_front": 0, "truncate_k_ge_distinct": 0,
              "truncate_on_reused_list_object": 0, "tournament_cases": 0, "tournament_by_rank": 0, "tournament_by_dominance": 0,
              "tournament_by_coin": 0, "tournament_single": 0, "tournament_merged_populations": 0,
              "populations_with_colliding_ids": 0, "populations_with_hash_collisions": 0, "duplicates": 0,
              "duplicates_with_other_costs": 0, "near_equal_vectors": 0, "other_number_representation": 0,
-             "templates": {}, "pop_size_hist": {}, "objective_count_hist": {}}
+             "templates": {}, "pop_size_hist": {}, "objective_count_hist": {},
+             "histories": {"histories": 0, "generations": 0, "moves": {}, "vector_changes_in_place": 0, "vector_reassigned": 0,
+                           "pairs_distinct_then_equal": 0, "pairs_equal_then_distinct": 0,
+                           "truncations_after_a_vector_change": 0, "truncations_after_a_vector_change_with_duplicates": 0,
+                           "individuals_hashed_before_their_vector_changed": 0, "re_evaluations_in_place": 0,
+                           "re_evaluations_new_list": 0, "re_evaluations_calc_signed_costs": 0, "front_number_changes": 0,
+                           "classes": {}}}
+    H = stats["histories"]
 
     class SubInd(Individual):                       # a subclass with its own features, as the algorithms define them
         def add_features(self):
@@ -387,9 +517,7 @@ def run(ctx):
             return iter(o)
 
     def add_crowding(before, after, stale):
-        if not before:
-            return
-        m = len(before[0][1])
+        m = len(before[0][1]) if before else 0
         cases.append("CCrowd %s" % ll([pl(nl(i), ll(c, fl)) for i, c in before]))
         expected.append("OCrowd %s" % ll([pl(nl(i), ext(d)) for i, _, d in sorted(after, key=lambda t: t[0])]))
         meta.append({"op": "crowding_distance", "front": before, "after": [(i, d) for i, _, d in after]})
@@ -402,6 +530,18 @@ def run(ctx):
             stats["tie_free_fronts_ge3" if tf else "fronts_with_ties"] += 1
             stats["interior_finite_values"] += sum(1 for _, _, d in after if d != math.inf)
             stats["zero_range_objectives"] += sum(1 for d in range(m) if len(set(c[d] for _, c in before)) == 1)
+            small = 0
+            for d in range(m):
+                col = [c[d] for _, c in before]
+                r = max(col) - min(col)
+                b = range_bucket(r)
+                stats["objective_range_hist_fronts_ge3"][b] = stats["objective_range_hist_fronts_ge3"].get(b, 0) + 1
+                if len(set(col)) == n:
+                    stats["tie_free_objectives_with_range_le_epsilon"] += int(r <= EPS)
+                    stats["tie_free_objectives_with_subnormal_range"] += int(r < TINY)
+                    small += int(r <= EPS)
+            if tf and small:
+                stats["tie_free_fronts_with_an_objective_range_le_epsilon"] += 1
         ctx.count(("cd", tuple((i, tuple(c)) for i, c in before)), nontrivial=(n >= 3))
         if n >= 4 and tf and len(ctx.samples) < 2:
             ctx.sample(meta[-1])
@@ -418,6 +558,76 @@ def run(ctx):
         for x, (fn, cd) in zip(pop, feats):
             x.features["front_number"], x.features["crowding_distance"] = fn, cd
 
+    def truncate_case(inp, k, reused, keytag, may_sample):
+        """one nondominated_truncate(inp, k) on the list object inp: encoded BEFORE the call, set() order observed"""
+        enc_pop = ll([enc_ind(x, cid) for x in inp])          # what the implementation is given
+        snapshot = list(inp)
+        RecSet.order = None
+        ops.set = RecSet
+        try:
+            res = ops.nondominated_truncate(inp, k)
+        finally:
+            del ops.set
+        order = RecSet.order if RecSet.order is not None else list(set(snapshot))
+        cases.append("CTrunc %s %s %s" % (enc_pop, ll([cid[id(x)] for x in order], nl), nl(k)))
+        expected.append("OIds %s" % ll(sorted(cid.get(id(x), 999999) for x in res), nl))
+        meta.append({"op": "nondominated_truncate", "size": k, "stream": keytag,
+                     "population": [{"id": cid[id(x)], "vector": [float(v) for v in x.vector],
+                                     "costs_signed": [float(v) for v in x.costs_signed],
+                                     "front": x.features["front_number"], "cd": x.features["crowding_distance"]} for x in snapshot],
+                     "set_order": [cid[id(x)] for x in order], "returned": [cid.get(id(x), -1) for x in res]})
+        oracle_truncate(ctx, snapshot, cid, k, res)
+        stats["truncate_cases"] += 1
+        stats["truncate_on_reused_list_object"] += int(reused)
+        n = len(snapshot)
+        nd_now = len(set(design(x) for x in snapshot))
+        if nd_now < n:
+            stats["truncate_with_duplicates"] += 1
+        if k >= nd_now:
+            stats["truncate_k_ge_distinct"] += 1
+        elif res:
+            cut = max(x.features["front_number"] for x in res)
+            if any(x.features["front_number"] == cut and not any(x is r for r in res) for x in order):
+                stats["truncate_cut_inside_front"] += 1
+        ctx.count((keytag, k, tuple((cid[id(x)], x.features["front_number"], design(x) if keytag != "tr" else None) for x in snapshot)),
+                  nontrivial=(n >= 2))
+        if may_sample and n >= 5 and 1 < k < n and nd_now < n and len(ctx.samples) < 3:
+            ctx.sample(meta[-1])
+        if len(inp) != len(snapshot) or any(a is not b for a, b in zip(inp, snapshot)):
+            inp[:] = snapshot             # the call modified its argument: keep the stream going on a sane list
+        return nd_now < n
+
+    def tournament_case(inp, tape, keypop):
+        enc_pop = ll([enc_ind(x, cid) for x in inp])
+        snapshot = list(inp)
+        tape.samples, tape.choices = [], []
+        w = selector.select(inp)
+        smp = tape.samples[0] if tape.samples else None
+        coin = tape.choices[0] if tape.choices else None
+        extra = len(tape.samples) > 1 or len(tape.choices) > 1 or (smp is not None and len(smp) != 2)
+        cases.append("CTour %s %s %s" % (enc_pop, optl(smp if not extra else None, lambda s: pl(nl(s[0]), nl(s[1]))), optl(coin, nl)))
+        expected.append("OWin %s" % nl(cid.get(id(w), 999999)))
+        meta.append({"op": "tournament", "population": [{"id": cid[id(x)], "costs_signed": [float(v) for v in x.costs_signed],
+                                                         "front": x.features["front_number"]} for x in snapshot],
+                     "sample": smp, "choice": coin, "winner": cid.get(id(w), -1)})
+        oracle_tournament(ctx, snapshot, cid, smp if (smp is not None and len(smp) == 2) else None, w)
+        stats["tournament_cases"] += 1
+        if smp is None:
+            stats["tournament_single"] += 1
+        elif coin is not None:
+            stats["tournament_by_coin"] += 1
+        elif snapshot[smp[0]].features["front_number"] != snapshot[smp[1]].features["front_number"]:
+            stats["tournament_by_rank"] += 1
+        else:
+            stats["tournament_by_dominance"] += 1
+        ctx.count(("to", tuple(cid[id(x)] for x in snapshot), tuple(smp or ()), coin,
+                   tuple(tuple(float(v) for v in x.costs_signed) for x in keypop)), nontrivial=(len(keypop) >= 2))
+        if smp is not None and coin is None and len(ctx.samples) < 4 and \
+                snapshot[smp[0]].features["front_number"] == snapshot[smp[1]].features["front_number"]:
+            ctx.sample(meta[-1])
+        if len(inp) != len(snapshot) or any(a is not b for a, b in zip(inp, snapshot)):
+            inp[:] = snapshot
+
     def populations():
         for costs, dups in CORPUS:          # boundary cases read off the code, always run first
             pop = []
@@ -433,16 +643,250 @@ def run(ctx):
                 ind.costs = list(ind.costs_signed[:-1])
                 ind.features["feasible"] = True
             yield "corpus", len(costs[0]), pop, {"dup": len(dups)}
+            if min(abs(v) for c in costs for v in c if v) < 1e-7:      # small units: the same front through calc_signed_costs
+                pop = []
+                for i, c in enumerate(costs):
+                    ind = Individual([float(i), 0.5])
+                    ind.costs = list(c)
+                    ind.features["feasible"] = True
+                    ind.features["precision"] = 30 if min(abs(v) for v in c if v) > 1e-25 else 300
+                    ind.calc_signed_costs([1] * len(c))
+                    if not all(math.isfinite(v) for v in ind.costs_signed[:-1]):
+                        ind.costs_signed = list(c) + [False]
+                    pop.append(ind)
+                yield "corpus", len(costs[0]), pop, {"pipeline": len(pop)}
         for _ in range(n_pops):
             yield gen_population(rng, Individual, nmax, SubInd)
 
+    # ------------------------------------------------------------ stream 2: histories on long-lived Individual objects
+    HG = [0.0, 0.25, 0.5, 0.75, 1.0, 0.1, 0.9]
+
+    def redteam_history(k):
+        """red-team change 2 (lazily cached Individual.__hash__): four designs are ranked and truncated, then move in place;
+        two are clamped onto the corner (1, 0); re-evaluated, re-ranked, truncated to k."""
+        swarm = [Individual(v) for v in ([0.10, 0.30], [0.80, 0.20], [0.90, 0.10], [0.50, 0.60])]
+        cid.clear()
+        for i, x in enumerate(swarm):
+            cid[id(x)] = i
+        steps = [[0.05, 0.00], [0.40, -0.50], [0.30, -0.20], [-0.10, 0.10]]
+        for gen in range(2):
+            for x in swarm:
+                x.costs = [x.vector[0] + x.vector[1], (1.0 - x.vector[0]) + x.vector[1]]
+                x.costs_signed = list(x.costs) + [False]
+            del calls[:]
+            selector.fast_nondominated_sorting(swarm)
+            flush_calls()
+            truncate_case(swarm, 4 if gen == 0 else k, gen > 0, "trh", False)
+            if gen == 0:
+                for x, st in zip(swarm, steps):
+                    for i in range(2):
+                        x.vector[i] = min(1.0, max(0.0, x.vector[i] + st[i]))
+        H["histories"] += 1
+        H["generations"] += 2
+
+    def history():
+        """A particle-swarm / steady-state style loop that keeps its Individual objects alive: evaluate, rank, truncate
+        (this hashes every individual), draw tournaments, then CHANGE VECTORS (in-place element assignment, step + clamping
+        onto the bounds as update_position does, whole-list assignment, sync, swapped lists) so that previously distinct
+        designs become equal and previously equal ones distinct, re-evaluate (new list / in place / calc_signed_costs),
+        re-rank, truncate again.  Every call is compared with the model evaluated on the CURRENT vectors, costs and ranks."""
+        nv = rng.choice([1, 2, 2, 3])
+        m = rng.choice([1, 2, 2, 2, 3])
+        n = rng.choice([3, 4, 4, 5, 6, 8])
+        cls = rng.choice([Individual, Individual, SubInd, IndividualSwarm, IndividualNSGAII])
+        H["histories"] += 1
+        H["classes"][cls.__name__] = H["classes"].get(cls.__name__, 0) + 1
+        grid = HG[:5] if rng.random() < 0.6 else HG
+        swarm = [cls([rng.choice(grid) for _ in range(nv)]) for _ in range(n)]
+        if rng.random() < 0.5:              # start from all-distinct designs in half of the histories
+            seen = set()
+            for x in swarm:
+                while design(x) in seen:
+                    x.vector = [rng.choice(HG) + rng.choice([0.0, 0.01, 0.02, 0.03]) for _ in range(nv)]
+                seen.add(design(x))
+        ids = [x.id for x in swarm]
+        cid.clear()
+        for i, x in enumerate(swarm):
+            cid[id(x)] = i
+        W = [[rng.choice([-1.0, 1.0, 1.0, 0.5, -2.0, 0.0, 3.0]) for _ in range(nv)] for _ in range(m)]
+        if m >= 2:                          # conflicting objectives: fronts of several members
+            W[1] = [-w if w else 1.0 for w in W[0]]
+        Q = [rng.choice([0.0, 0.0, 1.0, -1.0]) for _ in range(m)]
+        unit = [rng.choice([1.0, 1.0, 1.0, 1e-17, 1e-300, 1e6, 3.0]) for _ in range(m)]
+        noisy = rng.random() < 0.15         # a stochastic objective: one design evaluated to different costs
+        infeasible_above = rng.choice([None, None, None, 0.8])
+        hashed = set()
+
+        def evaluate(x):
+            v = [float(c) for c in x.vector]
+            c = [unit[d] * (sum(W[d][j] * v[j] + Q[d] * v[j] * v[j] for j in range(nv)) + (rng.choice([0.0, 0.125]) if noisy else 0.0))
+                 for d in range(m)]
+            marker = bool(infeasible_above is not None and v[0] > infeasible_above)
+            how = rng.choice(["new", "new", "inplace", "pipeline"])
+            x.costs = list(c)
+            if how == "inplace" and len(x.costs_signed) == m + 1:
+                for d in range(m):
+                    x.costs_signed[d] = c[d]
+                x.costs_signed[m] = marker
+                H["re_evaluations_in_place"] += 1
+            elif how == "pipeline":
+                x.features["precision"] = rng.choice([20, 30, 300]) if min(unit) < 1e-6 else rng.choice([7, 12, 30])
+                x.features["feasible"] = not marker
+                x.calc_signed_costs([1] * m)
+                if not all(math.isfinite(t) for t in x.costs_signed[:-1]):
+                    x.costs_signed = list(c) + [marker]
+                H["re_evaluations_calc_signed_costs"] += 1
+            else:
+                x.costs_signed = list(c) + [marker]
+                H["re_evaluations_new_list"] += 1
+
+        def clamp_step(x, step):            # algorithm_swarm.update_position: in place, element by element
+            for i in range(nv):
+                x.vector[i] = x.vector[i] + step[i]
+                if x.vector[i] > 1.0:
+                    x.vector[i] = 1.0
+                if x.vector[i] < 0.0:
+                    x.vector[i] = 0.0
+            H["vector_changes_in_place"] += 1
+
+        def move():
+            kind = rng.choice(["corner", "corner", "merge_in_place", "assign_copy", "sync", "split", "split", "jitter", "near", "swap",
+                               "other_repr", "assign_alias"])
+            H["moves"][kind] = H["moves"].get(kind, 0) + 1
+            a, b = rng.sample(swarm, 2)
+            if kind == "corner":            # two (or three) particles leave the box in the same direction: same corner afterwards
+                corner = [rng.choice([-1.0, 1.0]) for _ in range(nv)]
+                for x in rng.sample(swarm, rng.choice([2, 2, 3])):
+                    clamp_step(x, [s * rng.choice([1.0, 1.5, 2.0]) for s in corner])
+            elif kind == "merge_in_place":  # a takes b's coordinates, element by element
+                for i in range(nv):
+                    a.vector[i] = b.vector[i]
+                H["vector_changes_in_place"] += 1
+            elif kind == "assign_copy":
+                a.vector = list(b.vector)
+                H["vector_reassigned"] += 1
+            elif kind == "assign_alias":    # the same list object in two individuals
+                a.vector = b.vector
+                H["vector_reassigned"] += 1
+            elif kind == "sync":            # a becomes b (vector, costs, ... shared); the features dict is un-shared again so
+                a.sync(b)                   # that the distance the call writes for a is a's own (aliased OUTPUT fields would
+                a.features = dict(b.features)   # make "the distance of a" ill-defined; aliased inputs are kept)
+                H["vector_reassigned"] += 1
+            elif kind == "split":           # members of a group of equal designs move apart
+                groups = {}
+                for x in swarm:
+                    groups.setdefault(design(x), []).append(x)
+                dup = [g for g in groups.values() if len(g) > 1]
+                if dup:
+                    for x in rng.choice(dup)[1:]:
+                        if rng.random() < 0.5:
+                            x.vector = list(x.vector)          # un-alias, then change one element in place
+                            x.vector[rng.randrange(nv)] = rng.choice(HG) + rng.choice([0.0, 0.05])
+                            H["vector_changes_in_place"] += 1
+                        else:
+                            x.vector = [rng.choice(HG) for _ in range(nv)]
+                            H["vector_reassigned"] += 1
+                else:
+                    a.vector[rng.randrange(nv)] = rng.choice(HG)
+                    H["vector_changes_in_place"] += 1
+            elif kind == "jitter":
+                for x in swarm:
+                    clamp_step(x, [rng.choice([-0.25, 0.0, 0.25, 0.5]) for _ in range(nv)])
+            elif kind == "near":            # 1e-11 next to b: == by Individual.__eq__, another hash
+                a.vector = [float(c) for c in b.vector]
+                a.vector[rng.randrange(nv)] += rng.choice([1e-11, -1e-11])
+                H["vector_reassigned"] += 1
+            elif kind == "swap":
+                a.vector, b.vector = b.vector, a.vector
+                H["vector_reassigned"] += 2
+            else:                           # the same numbers as numpy.float64: same design, same hash
+                a.vector = [np.float64(c) for c in a.vector]
+                H["vector_reassigned"] += 1
+
+        tape = RandomTape(rng)
+        inp = list(swarm)                   # a second long-lived list object (the "population" of the algorithm)
+        fronts_before = None
+        moved = False
+        for g in range(rng.choice([2, 3, 3, 4])):
+            H["generations"] += 1
+            for x, i in zip(swarm, ids):    # the sorter looks individuals up by Individual.id
+                x.id = i
+            for x in swarm:
+                evaluate(x)
+            del calls[:]
+            selector.fast_nondominated_sorting(swarm)
+            flush_calls()
+            if any(x.features.get("front_number") is None for x in swarm):
+                ctx.mismatches.append({"what": "the sorter left an individual unranked (C02 territory); history stopped"})
+                return
+            fronts = [x.features["front_number"] for x in swarm]
+            if fronts_before is not None:
+                H["front_number_changes"] += sum(1 for p, q in zip(fronts_before, fronts) if p != q)
+            fronts_before = fronts
+            if rng.random() < 0.3:
+                for x in swarm:
+                    x.id = rng.choice([0, 7])
+            nd = len(set(design(x) for x in swarm))
+            ks = sorted(set([rng.randrange(1, n + 1), max(1, nd - 1), nd, rng.choice([n, n + 2])]))
+            rng.shuffle(ks)
+            for t, k in enumerate(ks[:3]):
+                lst = swarm if rng.random() < 0.5 else inp
+                if rng.random() < 0.4:
+                    rng.shuffle(lst)
+                dups = truncate_case(lst, k, True, "trh", False)
+                if moved:
+                    H["truncations_after_a_vector_change"] += 1
+                    H["truncations_after_a_vector_change_with_duplicates"] += int(dups)
+            hashed.update(id(x) for x in swarm)
+            # tournaments; in a third of the generations on front numbers of two separately ranked halves (the comparator
+            # branch of select() is dead code on a consistently ranked population)
+            ranked = features_of(swarm)
+            if rng.random() < 0.34:
+                for x, i in zip(swarm, ids):
+                    x.id = i
+                half = n // 2
+                selector.fast_nondominated_sorting(swarm[:half])
+                selector.fast_nondominated_sorting(swarm[half:])
+                flush_calls()
+            ops.random = tape
+            try:
+                for _t in range(3):
+                    tournament_case(swarm if rng.random() < 0.5 else inp, tape, swarm)
+            finally:
+                ops.random = real_random
+            set_features(swarm, ranked)
+            if rng.random() < 0.4:          # the individuals are hashed / used as keys by other routes too
+                _ = {x: 1 for x in swarm}
+                _ = [x in set(swarm) for x in swarm]
+            if rng.random() < 0.5:          # crowding_distance directly on the long-lived list (distances of the sort still there)
+                ops.crowding_distance(swarm)
+                flush_calls()
+            before = [design(x) for x in swarm]
+            for _mv in range(rng.choice([1, 2, 3])):
+                move()
+            after = [design(x) for x in swarm]
+            moved = True
+            H["individuals_hashed_before_their_vector_changed"] += sum(1 for x, p, q in zip(swarm, before, after) if p != q and id(x) in hashed)
+            for i in range(n):
+                for j in range(i):
+                    H["pairs_distinct_then_equal"] += int(before[i] != before[j] and after[i] == after[j])
+                    H["pairs_equal_then_distinct"] += int(before[i] == before[j] and after[i] != after[j])
+
     try:
         ops.crowding_distance = rec_cd
+        # sizes on either side of the `n == 0 / 1 / 2` special cases, empty inputs included
+        cid.clear()
+        ops.crowding_distance([])
+        flush_calls()
+        truncate_case([], 3, False, "tr", False)
         for template, m, pop, kinds in populations():
             cid.clear()
             for i, x in enumerate(pop):
                 cid[id(x)] = i
             n = len(pop)
+            if kinds.get("outside_assumptions"):
+                stats["populations_skipped_difference_overflow"] += 1
+                continue
             stats["populations"] += 1
             stats["templates"][template] = stats["templates"].get(template, 0) + 1
             stats["pop_size_hist"][n] = stats["pop_size_hist"].get(n, 0) + 1
@@ -452,6 +896,8 @@ def run(ctx):
             stats["duplicates_with_other_costs"] += kinds.get("dup_other_costs", 0)
             stats["near_equal_vectors"] += kinds.get("near_equal", 0)
             stats["other_number_representation"] += kinds.get("other_repr", 0)
+            stats["costs_signed_via_calc_signed_costs"] += kinds.get("pipeline", 0)
+            stats["calc_signed_costs_nonfinite_fallback"] += kinds.get("pipeline_nonfinite", 0)
 
             # 1. rank with the real sorter (it calls crowding_distance once per front)
             del calls[:]
@@ -497,39 +943,7 @@ def run(ctx):
                         del inp[rng.randrange(len(inp))]
                 elif rng.random() < 0.6:
                     rng.shuffle(inp)
-                enc_pop = ll([enc_ind(x, cid) for x in inp])          # what the implementation is given
-                snapshot = list(inp)
-                RecSet.order = None
-                ops.set = RecSet
-                try:
-                    res = ops.nondominated_truncate(inp, k)
-                finally:
-                    del ops.set
-                order = RecSet.order if RecSet.order is not None else list(set(snapshot))
-                cases.append("CTrunc %s %s %s" % (enc_pop, ll([cid[id(x)] for x in order], nl), nl(k)))
-                expected.append("OIds %s" % ll(sorted(cid.get(id(x), 999999) for x in res), nl))
-                meta.append({"op": "nondominated_truncate", "size": k,
-                             "population": [{"id": cid[id(x)], "vector": [float(v) for v in x.vector],
-                                             "costs_signed": [float(v) for v in x.costs_signed],
-                                             "front": x.features["front_number"], "cd": x.features["crowding_distance"]} for x in snapshot],
-                             "set_order": [cid[id(x)] for x in order], "returned": [cid.get(id(x), -1) for x in res]})
-                oracle_truncate(ctx, snapshot, cid, k, res)
-                stats["truncate_cases"] += 1
-                stats["truncate_on_reused_list_object"] += int(turn > 0)
-                nd_now = len(set(design(x) for x in snapshot))
-                if nd_now < len(snapshot):
-                    stats["truncate_with_duplicates"] += 1
-                if k >= nd_now:
-                    stats["truncate_k_ge_distinct"] += 1
-                elif res:
-                    cut = max(x.features["front_number"] for x in res)
-                    if any(x.features["front_number"] == cut and not any(x is r for r in res) for x in order):
-                        stats["truncate_cut_inside_front"] += 1
-                ctx.count(("tr", k, tuple((cid[id(x)], x.features["front_number"]) for x in snapshot)), nontrivial=(n >= 2))
-                if n >= 5 and 1 < k < n and ndesigns < n and len(ctx.samples) < 3:
-                    ctx.sample(meta[-1])
-                if len(inp) != len(snapshot) or any(a is not b for a, b in zip(inp, snapshot)):
-                    inp[:] = snapshot             # the call modified its argument: keep the stream going on a sane list
+                truncate_case(inp, k, turn > 0, "tr", True)
 
             # 3. binary tournaments (same selector, same list object shuffled in place)
             if merged is not None:
@@ -546,35 +960,7 @@ def run(ctx):
                         del inp[rng.randrange(len(inp))]          # same list object, one member fewer
                     elif r < 0.8 and len(inp) < n:
                         inp[:] = pop
-                    enc_pop = ll([enc_ind(x, cid) for x in inp])
-                    snapshot = list(inp)
-                    tape.samples, tape.choices = [], []
-                    w = selector.select(inp)
-                    smp = tape.samples[0] if tape.samples else None
-                    coin = tape.choices[0] if tape.choices else None
-                    extra = len(tape.samples) > 1 or len(tape.choices) > 1 or (smp is not None and len(smp) != 2)
-                    cases.append("CTour %s %s %s" % (enc_pop, optl(smp if not extra else None, lambda s: pl(nl(s[0]), nl(s[1]))), optl(coin, nl)))
-                    expected.append("OWin %s" % nl(cid.get(id(w), 999999)))
-                    meta.append({"op": "tournament", "population": [{"id": cid[id(x)], "costs_signed": [float(v) for v in x.costs_signed],
-                                                                     "front": x.features["front_number"]} for x in snapshot],
-                                 "sample": smp, "choice": coin, "winner": cid.get(id(w), -1)})
-                    oracle_tournament(ctx, snapshot, cid, smp if (smp is not None and len(smp) == 2) else None, w)
-                    stats["tournament_cases"] += 1
-                    if smp is None:
-                        stats["tournament_single"] += 1
-                    elif coin is not None:
-                        stats["tournament_by_coin"] += 1
-                    elif snapshot[smp[0]].features["front_number"] != snapshot[smp[1]].features["front_number"]:
-                        stats["tournament_by_rank"] += 1
-                    else:
-                        stats["tournament_by_dominance"] += 1
-                    ctx.count(("to", tuple(cid[id(x)] for x in snapshot), tuple(smp or ()), coin,
-                               tuple(tuple(float(v) for v in x.costs_signed) for x in pop)), nontrivial=(n >= 2))
-                    if smp is not None and coin is None and len(ctx.samples) < 4 and \
-                            snapshot[smp[0]].features["front_number"] == snapshot[smp[1]].features["front_number"]:
-                        ctx.sample(meta[-1])
-                    if len(inp) != len(snapshot) or any(a is not b for a, b in zip(inp, snapshot)):
-                        inp[:] = snapshot
+                    tournament_case(inp, tape, pop)
             finally:
                 ops.random = real_random
             set_features(pop, ranked)
@@ -590,6 +976,12 @@ def run(ctx):
                 if rng.random() < 0.5:
                     ops.crowding_distance(sub)
                 flush_calls()
+
+        # the red-team history first (four designs, two clamped onto the corner (1, 0)), then generated histories
+        for k in (2, 3, 4):
+            redteam_history(k)
+        for _h in range(n_hist):
+            history()
     finally:
         ops.crowding_distance = real_cd
         ops.random = real_random
@@ -597,12 +989,23 @@ def run(ctx):
             del ops.set
 
     ctx.coq_compare("c03", HEADER, "c03_case", "c03_obs", "c03_run", "c03_obs_eqb", cases, expected, meta, shard=400)
-    ctx.rule = ("populations of 1..%d individuals with 1..4 objectives from templates (value grids with ties, anti-chains, chains, all-equal, "
-                "zero-range objectives, tie-free uniform values, scaled magnitudes); duplicated designs (identical vector with the same or with "
-                "different costs, 0.0/-0.0, int / numpy.float64 representations), near-equal vectors (1e-11), distinct vectors with colliding "
-                "hashes, subclasses, states, colliding Individual.id, costs as float / numpy.float64 / int, mixed feasibility markers; one "
-                "long-lived selector object; ranked by the real fast_nondominated_sorting; every crowding_distance call (per front, on separately "
-                "ranked halves, and direct calls on arbitrary sub-lists carrying stale distances), nondominated_truncate for sizes 1..n+2 on one "
-                "re-used list object shuffled in place with the observed set() order as oracle, TournamentSelector.select with recorded "
-                "random.sample/random.choice. Non-trivial: fronts of >= 3 members, populations of >= 2; distinct = distinct (operation, inputs)") % nmax
+    ctx.rule = ("(1) populations of 1..%d individuals with 1..4 objectives from templates (value grids with ties, anti-chains, chains, all-equal, "
+                "zero-range objectives, tie-free uniform values, scaled magnitudes, and `scales`: every objective on its own scale anywhere in "
+                "binary64 - ranges exactly on / one ulp below / one ulp above / half / double each of %d threshold values from 0 and 5e-324 over "
+                "2.2e-308, 1e-300, 1e-17, sys.float_info.epsilon, 1e-12 ... 1e-7 to 1e300, gaps of 1..5 ulps between neighbouring members around "
+                "0, 1, 1e-300, 1e300 and the largest float, integer multiples of units from 5e-324 to 1e300, large offsets with a spread of a few "
+                "ulps; populations in which a difference of two objective values overflows are skipped and counted), costs_signed set directly or "
+                "produced by Individual.calc_signed_costs with precision 7..300 and signs +-1; duplicated designs (identical vector with the same "
+                "or with different costs, 0.0/-0.0, int / numpy.float64 representations), near-equal vectors (1e-11), distinct vectors with "
+                "colliding hashes, subclasses, states, colliding Individual.id, costs as float / numpy.float64 / int, mixed feasibility markers; "
+                "one long-lived selector object; ranked by the real fast_nondominated_sorting; every crowding_distance call (per front, on "
+                "separately ranked halves, direct calls on arbitrary sub-lists carrying stale distances, the empty list), nondominated_truncate "
+                "for sizes 1..n+2 on one re-used list object shuffled in place with the observed set() order as oracle, "
+                "TournamentSelector.select with recorded random.sample/random.choice. (2) histories of 2..4 generations on 3..8 long-lived "
+                "Individual / IndividualSwarm / IndividualNSGAII objects in the box [0,1]^1..3: evaluate (new costs_signed list, in-place "
+                "update, calc_signed_costs), rank, truncate for 3 sizes (every individual is hashed), tournaments, then vectors change (in-place "
+                "element assignment, step + clamping onto a corner, whole-list assignment, aliased lists, sync, swap, near-equal, numpy "
+                "representation) so that distinct designs become equal and equal ones distinct, re-evaluate, re-rank, truncate again; each call "
+                "compared with the model on the current vectors / costs / ranks. Non-trivial: fronts of >= 3 members, populations of >= 2; "
+                "distinct = distinct (operation, inputs)") % (nmax, len(THRESH))
     ctx.extra.update({"case_kinds": stats})
